@@ -116,6 +116,16 @@ theorem deny_changes_nothing {σ : Type} (r : Route) (c : Caller) (body : σ →
   unfold serve at h ⊢
   cases hd : decision r.decorators r.isApi c <;> simp [hd] at h ⊢
 
+/-- being a service account gives no administration rights: a non-developer service account other than `auth` is refused by
+`authenticated_developers_or_auth_only` -/
+theorem service_account_is_not_admin (a : Bool) (c : Caller) (hd : c.developer = false) (ha : c.isAuth = false) :
+    Access.guard .developersOrAuthOnly a c ≠ .allow := by
+  simp only [Access.guard]
+  cases hu : usersOnly none a c <;> simp [hd, ha]
+
+theorem admin_only (d a : Bool) (h : (d || a) = false) : adminOnly d a = some { ok := false, changed := false } := by
+  simp [adminOnly, h]
+
 /-! ## owner-only mutators -/
 
 /-- Every owner-class route starts with the owner-filtered SELECT (`… user = %s`), over the current table. -/
@@ -185,15 +195,15 @@ example : routes.any (fun r => required r.method r.segs == .owner && r.ownerFilt
 example : routes.any (fun r => required r.method r.segs == .admin) = true := by decide +kernel
 -- a billing-project member reads, a stranger gets 404, an anonymous API caller 401, an inactive account 403
 example : decision [.billingProjectUsersOnly none, .passThrough "add_metadata_to_request"] true
-    { hasSession := true, active := true, developer := false, isAuth := false, member := true, owner := false, batchIdOk := true } = .allow := by decide
+    { hasSession := true, active := true, developer := false, isAuth := false, serviceAccount := false, member := true, owner := false, batchIdOk := true } = .allow := by decide
 example : decision [.billingProjectUsersOnly none] true
-    { hasSession := true, active := true, developer := true, isAuth := false, member := false, owner := false, batchIdOk := true } = .notFound := by decide
+    { hasSession := true, active := true, developer := true, isAuth := false, serviceAccount := false, member := false, owner := false, batchIdOk := true } = .notFound := by decide
 example : decision [.usersOnly none] true
-    { hasSession := false, active := true, developer := false, isAuth := false, member := false, owner := false, batchIdOk := true } = .unauthorized := by decide
+    { hasSession := false, active := true, developer := false, isAuth := false, serviceAccount := false, member := false, owner := false, batchIdOk := true } = .unauthorized := by decide
 example : decision [.usersOnly none] false
-    { hasSession := false, active := true, developer := false, isAuth := false, member := false, owner := false, batchIdOk := true } = .redirectLogin := by decide
+    { hasSession := false, active := true, developer := false, isAuth := false, serviceAccount := false, member := false, owner := false, batchIdOk := true } = .redirectLogin := by decide
 example : decision [.developersOrAuthOnly] true
-    { hasSession := true, active := false, developer := true, isAuth := false, member := false, owner := false, batchIdOk := true } = .forbidden := by decide
+    { hasSession := true, active := false, developer := true, isAuth := false, serviceAccount := false, member := false, owner := false, batchIdOk := true } = .forbidden := by decide
 -- a route without any guard that is not on the public list fails the check
 def unguardedRoute : Route :=
   { method := .get, path := "/api/v1alpha/batches/{batch_id}/secret",
